@@ -1366,8 +1366,8 @@ BASE_MODELS = [
     (P(r'^core::str::<impl str>::contains::<'), m_str_contains_char),
     (P(r'^str::<impl str>::replace::<'), m_str_replace),
     (P(r'^core::str::<impl str>::matches::<char>$'), m_str_matches),
-    (P(r'^<String as PartialEq<&str>>::eq$|^<String as PartialEq<str>>::eq$|^<String as PartialEq>::eq$|^<str as PartialEq>::eq$|^<&str as PartialEq<String>>::eq$|^<&str as PartialEq>::eq$'), m_str_eq),
-    (P(r'^<String as PartialEq<&str>>::ne$|^<String as PartialEq>::ne$'), m_str_ne),
+    (P(r'^<&*(String|str) as PartialEq(<&*(String|str)>)?>::eq$'), m_str_eq),
+    (P(r'^<&*(String|str) as PartialEq(<&*(String|str)>)?>::ne$'), m_str_ne),
     (P(r'^String::new$'), m_string_new),
     (P(r'^String::push_str$'), m_push_str),
     (P(r'impl char>::escape_unicode$'), m_escape_unicode),
